@@ -691,6 +691,38 @@ class AdapterStop(_S):
         return And(*self.split_post(A, result).values())
 
 
+def _adapter_stop_search(self, budget):
+    for cls in ("V3ToV2Adapter", "V2ToV1Adapter"):
+        yield {"adapter": cls}
+
+
+def _adapter_stop_call(self, m):
+    if "adapter" not in m:
+        return True, "symbolic counter-models are not replayed (the native search is)"
+    import asyncio
+    import warnings
+    from mosaik import adapters
+    calls = []
+
+    class P:
+        meta = {"type": "time-based", "models": {}}
+
+        async def stop(self):
+            calls.append("stop")
+    loop = asyncio.new_event_loop()
+    try:
+        with warnings.catch_warnings():
+            warnings.simplefilter("ignore")
+            loop.run_until_complete(getattr(adapters, m["adapter"])(P()).stop())
+    finally:
+        loop.close()
+    return calls == ["stop"], f"{m['adapter']}.stop(): the wrapped proxy's stop() ran {len(calls)} times"
+
+
+AdapterStop.native_search = _adapter_stop_search
+AdapterStop.native_call = _adapter_stop_call
+
+
 class LocalStop(_S):
     """LocalProxy.stop: finalize() of the simulator exactly once"""
     target = "mosaik.proxies.LocalProxy.stop"
